@@ -476,6 +476,50 @@ pub fn run_ops(sid: &str, tag: &Value, ops: &[Op], out: &mut dyn Write) -> usize
     run_ops_in(sid, tag, ops, out, true)
 }
 
+/// For long call sequences: ONE builder is driven through all the calls; each call's own result is
+/// logged, the build only at the end (`built` is "na" on the way).
+pub fn run_ops_final_only(sid: &str, tag: &Value, ops: &[Op], out: &mut dyn Write) -> usize {
+    let mut n = 1;
+    writeln!(out, "{}", json!({"fam": "builder", "sid": sid, "op": "BReset", "tag": tag})).unwrap();
+    let mut b: Option<Builder> = None;
+    for (i, op) in ops.iter().enumerate() {
+        let mut ev = op_json(op);
+        ev["sid"] = json!(sid);
+        if let Op::Build = op {
+            let built = match b.take() {
+                Some(builder) => guard(|| match builder.build() {
+                    Ok(bytes) => json!({"k": "ok", "v": rl(&bytes)}),
+                    Err(e) => json!({"k": "err", "ek": ek(&e)}),
+                })
+                .unwrap_or_else(|p| panic_value(&p)),
+                None => json!({"k": "na"}),
+            };
+            ev["r"] = json!(match built["k"].as_str() { Some("ok") => "ok", Some("panic") => "panic", _ => "err" });
+            ev["built"] = built;
+            writeln!(out, "{}", ev).unwrap();
+            return n + 1;
+        }
+        let r = if i == 0 {
+            guard(|| Ok(construct(op)))
+        } else {
+            let cur = b.take().expect("a live builder");
+            guard(|| apply(cur, op))
+        };
+        ev["built"] = json!({"k": "na"});
+        let failed = match r {
+            Ok(Ok(nb)) => { b = Some(nb); ev["r"] = json!("ok"); false }
+            Ok(Err(e)) => { ev["r"] = json!("err"); ev["ek"] = json!(ek(&e)); true }
+            Err(p) => { ev["r"] = json!("panic"); ev["msg"] = json!(p); true }
+        };
+        writeln!(out, "{}", ev).unwrap();
+        n += 1;
+        if failed {
+            return n;
+        }
+    }
+    n
+}
+
 /// `opens` = this call sequence opens a new session (otherwise it continues the current one, so
 /// that the orchestrator keeps related call sequences together and in order).
 pub fn run_ops_in(sid: &str, tag: &Value, ops: &[Op], out: &mut dyn Write, opens: bool) -> usize {
@@ -557,6 +601,49 @@ pub fn run_builder_scenario(v: &Value, idx: usize, out: &mut dyn Write) -> usize
 }
 
 /// Sessions tagged `bwire` are followed by a parse of what they built.
+/// TLV lists with structure: neighbouring registered types, repeated types, NoOp padding between
+/// items, many tiny items, empty values, a list that fills the payload exactly.
+pub fn structured_tlv_list(i: usize, budget: usize, rng: &mut Rng) -> Vec<(u8, Vec<u8>)> {
+    let reg: Vec<u8> = TYPES.iter().map(|(t, _)| u8::from(*t)).collect();
+    let mut list: Vec<(u8, Vec<u8>)> = Vec::new();
+    match i % 8 {
+        0 => { let (a, b) = (reg[(i / 8) % 12], reg[(i / 96) % 12]); list.push((a, vec![1])); list.push((b, vec![])); list.push((a, vec![2, 3])); }
+        1 => { let t = reg[(i / 8) % 12]; for k in 0..4 { list.push((t, vec![k as u8; k])); } }
+        2 => { for k in 0..5 { list.push((reg[(i / 8 + k) % 12], vec![0xA0 + k as u8; 1 + k])); list.push((0x04, vec![0; k])); } }
+        3 => { let n = *rng.pick(&[40usize, 120, 300]); for k in 0..n { list.push(((k % 251) as u8, vec![])); } }
+        4 => { let n = *rng.pick(&[30usize, 100, 250]); for k in 0..n { list.push((reg[k % 12], vec![k as u8])); } }
+        5 => { list.push((0x04, vec![])); list.push((0x04, vec![])); list.push((0x20, vec![0x21, 0, 0, 0, 0, 0x21, 0, 3, b'T', b'L', b'S'])); list.push((0x04, vec![0; 3])); }
+        6 if (i / 8) % 3 == 1 => {
+            // fills the budget exactly; the LAST item(s) have an empty value
+            let empties = 1 + (i / 24) % 2;
+            list.push((reg[(i / 8) % 12], vec![0x6b; budget - 3 - 3 * empties]));
+            for k in 0..empties { list.push((reg[(k + 3) % 12], vec![])); }
+        }
+        6 if (i / 8) % 3 == 2 => {
+            // ... or a one-byte value
+            list.push((reg[(i / 8) % 12], vec![0x6b; budget - 3 - 4]));
+            list.push((0x04, vec![9]));
+        }
+        6 => {
+            // fills the budget exactly with several items
+            let mut left = budget;
+            let mut k = 0u8;
+            while left >= 3 {
+                let take = (left - 3).min(*rng.pick(&[0usize, 1, 7, 300, 20000]));
+                let take = if left - 3 - take < 3 && left - 3 - take > 0 { left - 3 } else { take };
+                list.push((reg[k as usize % 12], vec![k; take]));
+                left -= 3 + take;
+                k = k.wrapping_add(1);
+            }
+        }
+        _ => { for k in 0..3 { list.push((0xE0 + k as u8, rng.bytes(k * 5))); list.push((0x00, vec![])); } }
+    }
+    // never beyond the budget
+    let mut used = 0usize;
+    list.retain(|(_, v)| { if used + 3 + v.len() <= budget { used += 3 + v.len(); true } else { false } });
+    list
+}
+
 fn maybe_parse_back(sid: &str, tag: &Value, ops: &[Op], out: &mut dyn Write, n: &mut usize) {
     if tag["g"] != "bwire" || ops.is_empty() {
         return;
@@ -1147,6 +1234,30 @@ pub fn generate_builder(name: &str, count: usize, rng: &mut Rng, out: &mut dyn W
                 maybe_parse_back(&format!("btypes-{}", i), &tag, &ops, out, &mut n);
             }
         }
+        // C07 with structured TLV lists (see structured_tlv_list)
+        "blists" => {
+            for i in 0..count {
+                let fam = 1 + (i % 3) as u64;
+                let addr = random_addr(rng, fam);
+                let budget = 65535 - addr.len();
+                let ctor = Op::With { vc: 0x20 + (i % 2) as u8, tr: tr_from(["Unspecified", "Stream", "Datagram"][i % 3]), addr, bitor: (i % 3) as u8 };
+                let mut ops = vec![ctor];
+                for (j, (t, v)) in structured_tlv_list(i, budget, rng).into_iter().enumerate() {
+                    let kind = match TYPES.iter().position(|(x, _)| u8::from(*x) == t) { Some(k) if (i + j) % 2 == 0 => Kind::Named(TYPES[k].0), _ => Kind::Raw(t) };
+                    ops.push(match (i + j) % 3 { 0 => Op::WriteTlv(kind, v), 1 => Op::Write(Payload::Tlv(kind, v)), _ => Op::Write(Payload::Pair(kind, v)) });
+                }
+                ops.push(Op::Build);
+                let tag = json!({"g": "bwire"});
+                // long call sequences: only the final build is of interest
+                let sid = format!("blists-{}", i);
+                if ops.len() > 60 {
+                    n += run_ops_final_only(&sid, &tag, &ops, out);
+                } else {
+                    n += run_ops(&sid, &tag, &ops, out);
+                }
+                maybe_parse_back(&sid, &tag, &ops, out, &mut n);
+            }
+        }
         // C13: parse a header, then rebuild it from the observed parts
         "rebuild" => {
             for i in 0..count {
@@ -1159,6 +1270,19 @@ pub fn generate_builder(name: &str, count: usize, rng: &mut Rng, out: &mut dyn W
                     let fill = rng.next() as u8;
                     while body.len() < l { body.push(fill); }
                     input = crate::stream::v2_header(0x21, (fam << 4) | 1, l as u16, &body);
+                }
+                if i % 4 == 3 {
+                    let fam = 1 + (i % 3) as u8;
+                    let mut body: Vec<u8> = (0..crate::stream::family_size(fam)).map(|j| (j * 3 + 7) as u8).collect();
+                    let budget = 65535 - body.len();
+                    let mut list = structured_tlv_list(i / 4, budget, rng);
+                    if list.len() > 45 { list.truncate(45); }
+                    for (t, v) in list {
+                        body.push(t);
+                        body.extend_from_slice(&(v.len() as u16).to_be_bytes());
+                        body.extend_from_slice(&v);
+                    }
+                    input = crate::stream::v2_header(0x21, (fam << 4) | 1, body.len() as u16, &body);
                 }
                 if rng.chance(1, 3) { input.extend_from_slice(b"trailing"); }
                 n += rebuild_sessions(&format!("rebuild-{}", i), &input, out);
